@@ -629,7 +629,7 @@ class Interp(ExprMixin):
         inner.brk = join(inner.brk, body.brk)
         inner.cont = join(inner.cont, body.cont)
         # handlers
-        for label, rst in body.raises.items():
+        for label, rst in [(l, x) for l in body.raises for x in body.raise_states(l)]:
             remaining = True
             for h in s.handlers:
                 m = self.match_handler(label, h)
@@ -671,7 +671,7 @@ class Interp(ExprMixin):
             out.absorb(o)
             if o.normal is not None:
                 out.add_return(o.normal, pval)
-        for l, x in inner.raises.items():
+        for l, x in [(l, x) for l in inner.raises for x in inner.raise_states(l)]:
             o = self.exec_block(s.finalbody, x.set(handling=x.handling + (l,)), frame)
             out.absorb(o)
             if o.normal is not None:
@@ -795,6 +795,8 @@ class Interp(ExprMixin):
             tmps = st.tmps | frozenset(t for t in paths[0] if tag(t) == "tmpname")
             st = st.set(gone=gone, tmps=tmps)
         dn = set(st.done)
+        if prim.startswith("file."):
+            dn.add(("op", prim, extra.get("handle")))
         for i, cs in enumerate(classes):
             for c in cs:
                 dn.add(("prim", kind, i, c.cls))
